@@ -14,9 +14,12 @@ from typing import List, Optional, Tuple
 
 class LoginDevice:
     def __init__(self, inner, mode: str = "telnet", username: str = "admin", password: str = "pw", passphrase: Optional[str] = None,
-                 host: str = "sim", max_tries: int = 3, nl: bytes = b"\n", banner: bytes = b""):
+                 host: str = "sim", max_tries: int = 3, nl: bytes = b"\n", banner: bytes = b"", retry: str = "default",
+                 deny_text: str = "Permission denied, please try again."):
         self.inner, self.mode, self.username, self.password, self.passphrase = inner, mode, username, password, passphrase
         self.host, self.max_tries, self.nl, self.banner = host, max_tries, nl, banner
+        # retry="password": after a wrong password only the password is asked again (also for telnet)
+        self.retry, self.deny_text = retry, deny_text
         self.state = "init"
         self.linebuf = bytearray()
         self.tries = 0
@@ -89,13 +92,15 @@ class LoginDevice:
                 self.state, self.logged_in = "shell", True
                 return nl + self.inner.connect()
             self.tries += 1
+            if self.mode == "telnet" and self.retry == "password":
+                return nl + b"% Bad password" + nl + self._p_pass()
             if self.mode == "telnet":
                 self.state = "username"
                 return nl + b"% Login invalid" + nl + nl + self._p_user()
             if self.tries >= self.max_tries:
                 self.state = "dead"
                 return nl + f"{self.username}@{self.host}: Permission denied (publickey,password).".encode() + nl
-            return nl + b"Permission denied, please try again." + nl + self._p_pass()
+            return nl + self.deny_text.encode() + nl + self._p_pass()
         return b""
 
 
